@@ -77,6 +77,8 @@ class AppLog:
             oc = self.outcome_by_ord.get(int(o))
             if oc is not None:
                 if oc[0] == 'raise':
+                    if len(oc) > 1 and oc[1] == 'TypeError':
+                        raise TypeError('scripted connect handler failure (TypeError)')
                     raise RuntimeError('scripted connect handler failure')
                 return oc[1]
         if self.connect_outcomes:
@@ -144,7 +146,16 @@ class AppLog:
                     finally:
                         self.busy -= 1
 
-            if legacy_disconnect:
+            if legacy_disconnect == 'varargs':
+                async def disconnect(*args):         # a handler written with a lone *args
+                    try:
+                        return await _disc(args[0], args[1] if len(args) > 1 else None)
+                    except TypeError as e:
+                        # (the library retries a disconnect handler that raised TypeError with
+                        # one argument - its one-argument compatibility path - and a *args
+                        # handler would then really run twice: out of scope here)
+                        raise ValueError(str(e))
+            elif legacy_disconnect:
                 async def disconnect(sid):
                     return await _disc(sid, None)
             else:
@@ -171,7 +182,15 @@ class AppLog:
                 finally:
                     nap('message')
 
-            if legacy_disconnect:
+            if legacy_disconnect == 'varargs':
+                def disconnect(*args):               # a handler written with a lone *args
+                    try:
+                        return self._disconnect(args[0], args[1] if len(args) > 1 else None)
+                    except TypeError as e:
+                        raise ValueError(str(e))     # (see the coroutine form above)
+                    finally:
+                        nap('disconnect')
+            elif legacy_disconnect:
                 def disconnect(sid):
                     try:
                         return self._disconnect(sid, None)
